@@ -225,3 +225,25 @@ func H_DEV_AssocMode(shape int) {
 }
 
 func N_DEV_AssocMode(tier int) int { return 5 }
+
+func H_DEV_C14Leak(shape int) {
+	s := c14Store()
+	s.FaultAt = 3
+	s.BadConn = true
+	db := openPrepared(s, &gorm.Config{SkipDefaultTransaction: true})
+	e1 := c14Op(db, "tx-exec-q1")
+	e2 := c14Op(db, "query-s1")
+	verifrt.Observe("e1", e1)
+	verifrt.Observe("e2", e2)
+	if p, ok := db.ConnPool.(*gorm.PreparedStmtDB); ok {
+		p.Close()
+	}
+	verifrt.WaitAll()
+	verifrt.Settle(func() bool { return s.OpenStmtsNow() == 0 })
+	verifrt.Observe("open", s.OpenStmtsNow())
+	var l []string
+	for _, e := range s.Log {
+		l = append(l, e.Kind+" "+e.Text)
+	}
+	verifrt.Observe("log", l)
+}
